@@ -25,6 +25,7 @@ func ruleC03(c *Check) {
 	c.depositRefundGuards("C03.4")
 	c.depositPayer("C03.3")
 	c.custodyErrorsChecked("C03.5")
+	c.availabilityPairs("C03.4")
 	c.paramGettersExact("C03.4", "KeyArbitrationTimeLimit", "KeyComplaintRetrospect", "KeySlashFraction")
 }
 
